@@ -661,9 +661,16 @@ fn delivered(log: &[Ev], id: u32) -> (Vec<u32>, Vec<u64>, u64, Vec<RMsg>, Vec<St
     }
     (ix, ps, d, bin, hdrs)
 }
-fn o_delivered(log: &[Ev], id: u32) -> O {
+fn o_delivered(log: &[Ev], id: u32, with_info: bool, is_stream: bool) -> O {
     let (ix, ps, d, _, _) = delivered(log, id);
-    O::T(vec![O::T(ix.iter().map(|x| O::n(*x)).collect()), O::T(ps.iter().map(|x| O::n(*x)).collect()), O::n(d)])
+    // the last StreamInfo under the id (for a query the marker and the total depend on the batching)
+    let info = log.iter().rev().find_map(|e| match e {
+        Ev::StreamInfo { id: i, nr_stream, processed, total } if *i == id => Some(if is_stream { vec![O::n(*nr_stream), O::n(*processed), O::n(*total)] } else { vec![] }),
+        _ => None,
+    });
+    // only for the first id of a stream: whether a renewed id sees a StreamInfo depends on the batching
+    let info = if with_info { info } else { None };
+    O::T(vec![O::T(ix.iter().map(|x| O::n(*x)).collect()), O::T(ps.iter().map(|x| O::n(*x)).collect()), O::n(d), O::T(info.unwrap_or_default())])
 }
 
 struct StreamRec {
@@ -767,7 +774,7 @@ fn run_session(srv_port: u16, c: &SessCase, dir: &std::path::Path, uniq: u64) ->
                         ids.push(IdRec { id, k: streams.len() - 1, start: *start, end: *end, settled: *settle, announced_at: cl.log.len() - 1, superseded_at: None, must_be_complete: false });
                         if *settle {
                             settle!();
-                            op_obs.push(O::T(vec![O::L(0), o_delivered(&cl.log, id)]));
+                            op_obs.push(O::T(vec![O::L(0), o_delivered(&cl.log, id, true, *is_stream)]));
                         } else {
                             op_obs.push(O::T(vec![O::L(0), O::T(vec![])]));
                         }
@@ -793,7 +800,7 @@ fn run_session(srv_port: u16, c: &SessCase, dir: &std::path::Path, uniq: u64) ->
                         ids.push(IdRec { id, k: *k, start: *start, end: *end, settled: *settle, announced_at: at, superseded_at: None, must_be_complete: false });
                         if *settle {
                             settle!();
-                            op_obs.push(O::T(vec![O::L(0), o_delivered(&cl.log, id)]));
+                            op_obs.push(O::T(vec![O::L(0), o_delivered(&cl.log, id, false, streams[*k].is_stream)]));
                         } else {
                             op_obs.push(O::T(vec![O::L(0), O::T(vec![])]));
                         }
@@ -802,6 +809,9 @@ fn run_session(srv_port: u16, c: &SessCase, dir: &std::path::Path, uniq: u64) ->
                 }
             }
             SOp::Stop { k } => {
+                if !finished {
+                    settle!();
+                }
                 let old = cur_id(&streams, *k);
                 let r = cl.cmd(&format!("stop {}", old), &["ok: stop", "err: stop"]).unwrap_or_default();
                 if r.starts_with("ok:") {
